@@ -16,10 +16,10 @@ conversions differ:
   yields the float `-0.0`, which integer visitors refuse): finding `C16-ap-negative-zero`;
 * `apNonFinite` — an `f64` target meets a literal whose nearest binary64 is not finite (`"1e400".parse::<f64>() = Ok(inf)`;
   the JSON scanner answers `number out of range`): finding `C16-ap-non-finite-f64`;
-* `apAnyMoved ext` — a `Value` target meets a value one of whose literals `Number::deserialize_any` does not hand back
-  verbatim (`-0` through the `as_i64` shortcut becomes `0`; a literal that equals `f64::to_string` of its value but not
-  `ryu`'s spelling is re-rendered: `0.000001` becomes `1e-6`): findings `C16-ap-negative-zero` (second half) and
-  `C16-ap-display-form`. What `ryu` / `f64::to_string` print is external: the parameter `prints`.
+* `Model.FromValue.apAnyMoved ext` (`Model/FromValueAp.lean`: it needs `Number::deserialize_any`) — a `Value` target meets a
+  value one of whose literals `Number::deserialize_any` does not hand back verbatim (`-0` through the `as_i64` shortcut
+  becomes `0`; a literal that equals `f64::to_string` of its value but not `ryu`'s spelling is re-rendered: `0.000001`
+  becomes `1e-6`): findings `C16-ap-negative-zero` (second half) and `C16-ap-display-form`.
 
 `Schema.allPos q s v` walks schema and value TOGETHER the way the three deserializers visit them (the positions of
 `Schema.svArr`, `Spec/SchemaExcl.lean`) and tests `q` wherever a LEAF target (bool, integer, float, char, string, byte buffer
@@ -111,6 +111,16 @@ def accOpt (nearest conv : Option UInt64) : Bool :=
     correctly rounded on it (`float_roundtrip`: always — C07; default build: for short literals — C08) -/
 def apAccurate (fr : Bool) : Schema → JV → Bool
   | .f64, .num (.lit l) => accOpt (litNearest l) (litConv fr l)
+  | _, _ => true
+
+/-- the side condition under which C07 applies to a literal at an `f64` position: an RFC 8259 number shorter than
+    `2^29 − 20` bytes whose exponent digits pass de.rs's `i32` guard (`parse_exponent_overflow` is not taken) -/
+def apLitBounded : Schema → JV → Bool
+  | .f64, .num (.lit l) =>
+    Number.isNumber l && decide (l.length + 20 < 2 ^ 29) &&
+      (match (Canon.partsOf (Number.splitNumber l)).exp with
+       | some (_, eds) => !Model.Num.expOverflows eds
+       | none => true)
   | _, _ => true
 
 mutual
